@@ -106,7 +106,8 @@ pub fn variant_name(kind: Kind, v: u8) -> &'static str {
     match kind {
         Kind::Fasta => ["records", "read_definition+read_sequence", "Indexer"][(v % 3) as usize],
         Kind::Fastq => ["records", "Indexer"][(v % 2) as usize],
-        Kind::Gff | Kind::Gtf => ["lines", "record_bufs"][(v % 2) as usize],
+        Kind::Gff => ["lines", "record_bufs", "line_bufs"][(v % 3) as usize],
+        Kind::Gtf => ["lines", "record_bufs"][(v % 2) as usize],
         Kind::Bed => "read_record",
         Kind::Bgzf => ["read_to_end", "read-777", "fill_buf"][(v % 3) as usize],
         Kind::Bam => ["records", "record_bufs", "read_record+positions"][(v % 3) as usize],
@@ -145,7 +146,7 @@ impl Kind {
     /// number of reading-protocol variants (lazy/buf records, ...)
     pub fn variants(self) -> u8 {
         match self {
-            Kind::Bgzf | Kind::Bam | Kind::Fasta => 3,
+            Kind::Bgzf | Kind::Bam | Kind::Fasta | Kind::Gff => 3,
             Kind::Bed | Kind::Bai | Kind::Csi | Kind::Tabix | Kind::Gzi | Kind::Fai | Kind::Crai => 1,
             _ => 2,
         }
